@@ -8,8 +8,12 @@ Three layers, kept apart so that each can be varied independently:
   El      the element TREE the schema prescribes for that data — `to_tree()`;
   Layout  how the tree is written down — `render()`: whitespace between elements (spaces, tabs,
           newlines, CR LF, none), spaces/tabs inside start tags, attribute order, self-closing vs
-          empty-pair form, optional padding of whitespace-collapsing texts, XML prolog / comments /
-          junk-free text before `<KSR`.
+          empty-pair form, optional padding of whitespace-collapsing texts, and what precedes `<KSR`: the six
+          classic PROLOGS, or a prolog of the XML grammar (`gen_prolog` / `prolog_lattice`: declaration,
+          comments, processing instructions, doctype, nothing) in every LAYOUT relative to the root — the
+          root on the same line after no / one / many blanks or tabs, on the next line, after CR LF, a bare
+          CR, a blank line; leading white space of every XML kind; `<KSR` as the very first characters;
+          the whole document on one line (`one_line_layout`).
 
 `expected_j(doc)` is the canonical JSON (the shape of lib.request_j / response_j) of the data that went
 in; corr_C12 cross-checks its ElementTree-based extractor against it (a self-test of the harness).
@@ -405,9 +409,103 @@ def render_el(e: El, lay: Layout) -> str:
     return tag + ">" + text + end
 
 
-def render(tree: El, lay: Layout) -> str:
-    pro = lay.r.choice(PROLOGS) if lay.prolog else ""
-    return pro + render_el(tree, lay) + lay.r.choice(["", "\n", "\n\n", "  "])
+# --- the prolog as a grammar (XML 1.0 production 22:  prolog ::= XMLDecl? Misc* (doctypedecl Misc*)?,  Misc ::= Comment | PI | S),
+# and its LAYOUT relative to the root element: what separates the items from each other and the last item from `<KSR`.
+# None of the item texts contains the four characters `<KSR` (a prolog that does is outside the property: the reader starts at
+# the first `<KSR`; KskmProofs/C12.lean `ksr_in_comment_counterexample`).
+
+PROLOG_DECLS = ['<?xml version="1.0" encoding="UTF-8"?>', '<?xml version="1.0"?>', "<?xml version='1.0' encoding='utf-8' standalone='yes'?>", '<?xml version="1.0" encoding="UTF-8" ?>']
+PROLOG_COMMENTS = [
+    "<!-- document generated by ksr-client.pl revision 75 -->",
+    "<!---->",
+    "<!-- a comment with <tags>, a > b, KSR and <ksr> inside -->",
+    "<!-- two\nlines -->",
+    "<!--\n   < KSR id=\"not-the-element\" >\n-->",
+]
+PROLOG_PIS = ['<?xml-stylesheet type="text/xsl" href="ksr.xsl"?>', "<?ksr-client?>", "<?pi with > and < inside ?>"]
+PROLOG_DOCTYPES = ["<!DOCTYPE KSR>", '<!DOCTYPE KSR SYSTEM "ksr.dtd">', "<!DOCTYPE KSR [ <!-- internal subset --> ]>"]
+# white space as XML defines it (production 3: S ::= (#x20 | #x9 | #xD | #xA)+), of every kind, and none at all
+PROLOG_SEPS = ["", " ", "  ", "\t", " \t ", "\n", "\r\n", "\r", "\n\n", "\n  ", "\n\t", " \n", "\r\n\r\n    ", " " * 40, "\n" * 12]
+
+
+def sep_name(sep: str) -> str:
+    """a stable description of a separator: none / same-line (blanks, tabs only) / next-line / crlf / cr / blank-line"""
+    if sep == "":
+        return "none"
+    if "\n" not in sep and "\r" not in sep:
+        return "same-line-blanks"
+    if sep.count("\n") + sep.count("\r") - sep.count("\r\n") >= 2:
+        return "blank-line"
+    if "\r\n" in sep:
+        return "crlf"
+    if "\r" in sep:
+        return "cr"
+    return "next-line" if sep.endswith("\n") else "next-line-indented"
+
+
+# the shapes of a prolog: which items, in the order XML allows them ("D" declaration, "c" comment, "p" processing instruction, "T" doctype)
+PROLOG_SHAPES = ["", "D", "c", "p", "T", "Dc", "Dp", "DT", "cc", "cp", "cT", "Tc", "DcT", "DTc", "DcpTcp", "Dccc"]
+
+
+def prolog_items(shape: str, r: Any) -> list[tuple[str, str]]:
+    kinds = {"D": ("declaration", PROLOG_DECLS), "c": ("comment", PROLOG_COMMENTS), "p": ("pi", PROLOG_PIS), "T": ("doctype", PROLOG_DOCTYPES)}
+    return [(kinds[ch][0], r.choice(kinds[ch][1])) for ch in shape]
+
+
+def build_prolog(items: list[tuple[str, str]], seps: list[str], lead: str = "") -> str:
+    """lead + item0 + seps[0] + item1 + seps[1] + … + item(n-1) + seps[n-1]   (then the root follows).  `lead` is white space before
+    the first item — XML allows it only when the first item is not the XML declaration."""
+    assert len(seps) == len(items)
+    if items and items[0][0] == "declaration":
+        assert lead == ""
+    return lead + "".join(t + s for (_k, t), s in zip(items, seps))
+
+
+def gen_prolog(r: Any) -> tuple[str, str]:
+    """a random prolog of the grammar in a random layout; returns (text, description)"""
+    shape = r.choice(PROLOG_SHAPES)
+    items = prolog_items(shape, r)
+    seps = [r.choice(PROLOG_SEPS) for _ in items]
+    lead = "" if (items and items[0][0] == "declaration") else r.choice(["", "", "\n", " ", "\t", "\r\n", "\n\n   \t", "\r"])
+    desc = f"prolog:{shape or 'none'}:lead={sep_name(lead)}:root-after={sep_name(seps[-1]) if seps else sep_name(lead)}"
+    return build_prolog(items, seps, lead), desc
+
+
+def prolog_lattice(r: Any) -> Iterator[tuple[str, str]]:
+    """The layout of the prolog relative to the root, systematically: every shape of prolog x every separator between the LAST item
+    and `<KSR` (the separators between the other items drawn at random, then all equal to it), every kind of leading white space with
+    no item at all, and `<KSR` as the very first characters.  Yields (text, description)."""
+    for shape in PROLOG_SHAPES:
+        if not shape:
+            for lead in PROLOG_SEPS:
+                yield lead, f"prolog:none:lead={sep_name(lead)}:root-after={sep_name(lead)}"
+            continue
+        for last in PROLOG_SEPS:
+            items = prolog_items(shape, r)
+            for mode in ("random", "uniform"):
+                if mode == "uniform" and len(items) == 1:
+                    continue
+                seps = [last if mode == "uniform" else r.choice(PROLOG_SEPS) for _ in items[:-1]] + [last]
+                leads = [""] if items[0][0] == "declaration" else ["", r.choice(PROLOG_SEPS[1:])]
+                for lead in leads:
+                    yield build_prolog(items, seps, lead), f"prolog:{shape}:lead={sep_name(lead)}:root-after={sep_name(last)}"
+
+
+def one_line_layout(r: Any, gap: str = "") -> Layout:
+    """the whole element tree on ONE line (what a minifier / many serialisers write): nothing, or `gap` (blanks / tabs), between elements"""
+    return Layout(r, between=[gap], in_tag=[" ", "\t", "  "], pad_text=0.0, prolog=False)
+
+
+def render(tree: El, lay: Layout, prolog: str | None = None, trail: str | None = None) -> str:
+    """`prolog` / `trail` given: exactly these around the element tree.  Otherwise (lay.prolog) one of the six classic prologs or a
+    random prolog of the grammar in a random layout, and a random white-space trailer."""
+    if prolog is not None:
+        pro = prolog
+    elif lay.prolog:
+        pro = lay.r.choice(PROLOGS) if lay.r.random() < 0.5 else gen_prolog(lay.r)[0]
+    else:
+        pro = ""
+    return pro + render_el(tree, lay) + (lay.r.choice(["", "\n", "\n\n", "  "]) if trail is None else trail)
 
 
 # --------------------------------------------------------------------------------------
